@@ -47,6 +47,20 @@ AveragedTable(D, X, m, axis, bt, ths, legend) ==
                                   LET parts == [k \in DOMAIN ivs |-> Score(X, m, i, axis, r, cfgOf(k))] IN
                                   IF \E k \in DOMAIN parts : IsUndef(parts[k]) THEN Undef ELSE DivE(SumE(parts), Q(R(Len(ivs))))]]]]
 
+\* -x obs / -x fcst: one row per event of Intervals(-b, -r); the score of the pooled valid pairs whose OBSERVATION (or FORECAST) lies in
+\* the event; the row is labelled by the event's lower edge (its upper edge where it has no lower one)
+CondPairs(X, i, field, iv) == SelectSeq(PairsOf(X, i, "no", 1), LAMBDA p : In(iv, IF field = "obs" THEN p[1] ELSE p[2]))
+ConditionalTable(X, m, field, bt, ths, legend) ==
+  LET ivs == Intervals(bt, ths) IN
+  [legend |-> legend,
+   rows |-> [k \in DOMAIN ivs |-> [desc |-> [kind |-> "number", axis |-> field, value |-> (IF ivs[k].lo = MInf THEN ivs[k].hi ELSE ivs[k].lo)[1]],
+                                    scores |-> [i \in 1..X.n |-> Det(m, CondPairs(X, i, field, ivs[k]), "mean", Zero)]]]]
+\* the rows of consecutive `within=`-type events share no pair, and together hold the pairs whose value lies in (first, last]
+CondRowsDisjoint(X, i, field, ths) ==
+  LET ivs == Intervals("within=", ths)  all == PairsOf(X, i, "no", 1) IN
+  SumInts([k \in DOMAIN ivs |-> Len(CondPairs(X, i, field, ivs[k]))])
+    = Len(SelectSeq(all, LAMBDA p : LET v == IF field = "obs" THEN p[1] ELSE p[2] IN Gt(v, ths[1]) /\ Le(v, ths[Len(ths)])))
+
 \* shape lemmas
 TableShape(D, X, m, axis, cfg, acc, legend) ==
   LET T == ScoreTable(D, X, m, axis, cfg, acc, legend) IN
